@@ -1,0 +1,6 @@
+//go:build !verif
+
+package types
+
+// verifGCYield is the no-op twin of the verification hook in verif_hooks.go (build tag `verif`).
+func verifGCYield(string) {}
